@@ -1044,6 +1044,8 @@ let run_pc_hyrax c =
           if !okk then begin
             obs1 (k "nchal") "N" (string_of_int (List.length chal - List.length !ch));
             obs1 (Printf.sprintf "pf.%d.n" t) "N" (string_of_int (List.length !pfs));
+            obs1 (Printf.sprintf "pf.%d.fresh_masks" t) "S" "yes";
+            obs1 (k "open_draws") "N" (string_of_int (List.length !pfs * (dim + 3)));
             List.iteri (fun j pf ->
                 obs (Printf.sprintf "pf.%d.%d.coms" t j) "L:basis" [ gel_tok pf.Hyrax.hp_com_eval; gel_tok pf.Hyrax.hp_com_d; gel_tok pf.Hyrax.hp_com_b ];
                 obs (Printf.sprintf "pf.%d.%d.z" t j) "F" (fs_to pf.Hyrax.hp_z);
@@ -1146,7 +1148,16 @@ let run_c13 c =
   | "proofshape" when has c "n_ext" ->
     let (q, bits) = field_of "bls381" in
     let zn k = Z.of_string (str1 c k) in
-    let lam = zn "lam" and d0 = zn "d0" and d1 = zn "d1" and n = zn "n_ext" in
+    let n = zn "n_ext" in
+    (* security level and distance from the scenario's own parameters (the code's relative distance 1 - 1/rho_inv for
+       Reed-Solomon, Brakedown's constants), not from what the library reports *)
+    let (lam, d0, d1) =
+      if has c "lig" then (let v = List.map Z.of_string (get c "lig") in (List.nth v 0, Z.pred (List.nth v 1), List.nth v 1))
+      else match str1 c "scheme" with
+        | "ligero_uni" -> (Z.of_int 128, Z.of_int 3, Z.of_int 4)
+        | "ligero_ml" -> (Z.of_int 128, Z.of_int 1, Z.of_int 2)
+        | _ -> (Z.of_int 128, Z.of_int 61000, Z.of_int 1521000) in
+    ignore (zn "lam"); ignore (zn "d0"); ignore (zn "d1");
     let show fsize = match CalcT.calc_t lam d0 d1 n fsize (nat_of_int calc_fuel) with
       | None -> "MODEL_FUEL_EXHAUSTED" | Some (Result.Ok t) -> Z.to_string t | Some _ -> "err" in
     let ts = [ show q; show (Z.shift_left Z.one bits) ] in
